@@ -15,7 +15,7 @@ var commonAssumptions = []string{
 	"sync/atomic, sync.Pool, sync.Mutex have single-threaded semantics; internal/bytealg primitives are modelled directly",
 	"package initialisers of the interpreted packages are run concretely; reflect-based initialisers yield zero values",
 	"time.Local is UTC (native replays run with TZ=UTC)",
-	"z3 4.8.12 answers are correct; any unknown/error makes the run inconclusive (exit 2), never a pass",
+	"the deciding solver (z3 5.1.0 by default) answers correctly - its verdicts were replayed through z3 4.8.12 and cvc5 without disagreement (tools/crosscheck.py); any unknown/error makes the run inconclusive (exit 2), never a pass",
 }
 
 var propAssume = map[string][]string{}
